@@ -128,7 +128,7 @@ def pymod(a, b):
 class Kernel:
     """abstract execution of one function"""
 
-    def __init__(self, fn, params, symbolic=True, self_attrs=None, lengths=None, stop_at=None):
+    def __init__(self, fn, params, symbolic=True, self_attrs=None, lengths=None, stop_at=None, consts=None):
         """params: dict name -> value (z3 Int/Bool const in symbolic mode, python value in concrete mode; anything else
         is opaque).  lengths: dict expression-source -> length term for opaque sequences (e.g. 'points': n_pts)."""
         self.fn = fn
@@ -138,6 +138,7 @@ class Kernel:
         self.env = dict(params)
         self.self_attrs = self_attrs or {}
         self.lengths = lengths or {}
+        self.consts = consts or {}      # source text of an expression -> value (e.g. enum members)
         self.generators = []
         self.writes = []
         self.counts = {}        # container -> total number of appends so far (term) or None if unknown
@@ -181,6 +182,9 @@ class Kernel:
         if isinstance(node, ast.Name):
             return self.env.get(node.id, Opaque("name " + node.id))
         if isinstance(node, ast.Attribute):
+            src = ast.unparse(node)
+            if src in self.consts:
+                return self.consts[src]
             if isinstance(node.value, ast.Name) and node.value.id == "self" and node.attr in self.self_attrs:
                 return self.self_attrs[node.attr]
             return Opaque("attribute")
